@@ -109,8 +109,8 @@ def sound_formula(sem, uni, entry, file_term, file_present):
     return F.And(*conj)
 
 
-def hind_universe(mod, nodes, edges, mode, name='', stale=(), evalno=1):
-    uni = H.heval_universe(mod, nodes, edges, mode, name=name, stale=stale)
+def hind_universe(mod, nodes, edges, mode, name='', stale=(), evalno=1, built=False):
+    uni = H.make_universe(mod, nodes, edges, mode, name=name, stale=stale, built=built)
     sem = Sem(mode)
     uni.sem = sem
     uni.evalno = evalno
@@ -302,9 +302,9 @@ def explain(z, model, uni, st, j):
             'result_value': val(sem.content(ft[j])), 'clean_value': val(clean[j])}
 
 
-def run_c01_instance(mod, nodes, edges, mode, deadline=None, stale=(), max_followups=6):
+def run_c01_instance(mod, nodes, edges, mode, deadline=None, stale=(), max_followups=6, built=False):
     """returns (stats, violations) in the format of chain.run_*_instance"""
-    uni = hind_universe(mod, nodes, edges, mode, stale=stale)
+    uni = hind_universe(mod, nodes, edges, mode, stale=stale, built=built)
     mon = CleanBuildMonitor()
     ex = X.Explorer(uni, [mon])
     ex.run(deadline=deadline)
